@@ -54,6 +54,9 @@ REQUIRED_THEOREMS = [
     "TapkeeVerif.C08.hlle_gs_contract",                 # HLLE, the Gram-Schmidt contract as a theorem about the sweep
     "TapkeeVerif.C08.hlle_affine_in_nullspace",         # HLLE, inclusion ⊇, data-side hypotheses only
     "TapkeeVerif.C08.hlle_null_local_partial",          # HLLE, first half of the reverse inclusion
+    "TapkeeVerif.C08.hlle_const_null_of_sweep",         # HLLE, constant null vector with hgs discharged by the sweep
+    "TapkeeVerif.C08.hlle_nullspace_exact_min_k",       # HLLE, null space = affine functions at k = 1 + d + dp
+    "TapkeeVerif.C08.hlle_columns_affine_on_flat_min_k",  # HLLE, returned columns affine at k = 1 + d + dp
 ]
 
 
